@@ -548,7 +548,13 @@ func fetchSeg(ls *lib.Livesim, a *assetInfo, rep string, n int, nr int, segDur, 
 	if n != 0 {
 		cfg += fmt.Sprintf("scte35_%d/", n)
 	}
-	url := fmt.Sprintf("/livesim2/%s%s/%s/%d.m4s?nowMS=%d", cfg, a.Name, rep, nr, nowFor(nr, segDur, ts))
+	now := nowFor(nr, segDur, ts)
+	if strings.Contains(urlPrefix, "chunkdur_") {
+		// the chunked writer paces in real time up to a chunk duration beyond the segment end (the last
+		// chunk is accounted with the nominal chunk duration): ask late enough that nothing sleeps
+		now += int(2 * segDur * 1000 / ts)
+	}
+	url := fmt.Sprintf("/livesim2/%s%s/%s/%d.m4s?nowMS=%d", cfg, a.Name, rep, nr, now)
 	r := ls.GetRaw(url)
 	so := segObs{Nr: nr, Status: r.Status}
 	if r.Panic != "" {
